@@ -35,6 +35,10 @@ type task struct {
 	running   bool
 	output    interface{}
 	expiresAt time.Time
+
+	// removed is set (under cond.L) once the GC has taken the task out of the
+	// limiter. A caller which looked the task up before that must not run it.
+	removed bool
 }
 
 func newTask(input interface{}) *task {
@@ -87,21 +91,33 @@ func (l *Limiter) Run(input interface{}) interface{} {
 		}
 		l.Unlock()
 	}
-	return l.getOutput(t)
+	output, ok := l.getOutput(t)
+	if !ok {
+		// The task was garbage collected after we looked it up, so another
+		// caller may already be running a fresh task for input. Start over.
+		return l.Run(input)
+	}
+	return output
 }
 
-func (l *Limiter) getOutput(t *task) interface{} {
+// getOutput returns false if t has been removed from the limiter.
+func (l *Limiter) getOutput(t *task) (interface{}, bool) {
 	t.cond.L.Lock()
+
+	if t.removed {
+		t.cond.L.Unlock()
+		return nil, false
+	}
 
 	if !t.expired(l.clk.Now()) {
 		defer t.cond.L.Unlock()
-		return t.output
+		return t.output, true
 	}
 
 	if t.running {
 		t.cond.Wait()
 		defer t.cond.L.Unlock()
-		return t.output
+		return t.output, true
 	}
 
 	t.running = true
@@ -117,7 +133,7 @@ func (l *Limiter) getOutput(t *task) interface{} {
 
 	t.cond.Broadcast()
 
-	return output
+	return output, true
 }
 
 type limiterTaskGC struct {
@@ -131,6 +147,11 @@ func (gc *limiterTaskGC) Run() {
 	for input, t := range gc.limiter.tasks {
 		t.cond.L.Lock()
 		expired := t.expired(gc.limiter.clk.Now()) && !t.running
+		if expired {
+			// Decided and published under the task lock: nobody can start
+			// running t between this check and the delete below.
+			t.removed = true
+		}
 		t.cond.L.Unlock()
 		if expired {
 			delete(gc.limiter.tasks, input)
